@@ -118,6 +118,36 @@ class C11(Check):
                 order.append([oi, ptr[oi]])
                 ptr[oi] += 1
             cases.append({'objects': objs, 'schedule': order})
+        # an offline object that has evaluated a complete data set is handed one that lacks a column / a signal: the outcome must be
+        # that of a fresh object (an exception), not values computed with the data of the earlier call
+        X, Y = ('pred', 'geq', ('var', 0), ('const', 1)), ('pred', 'leq', ('var', 1), ('const', 2))
+        for k in range(6 if tier == 'quick' else 40):
+            f = [('and', X, Y), ('alw', ('or', X, Y)), ('since', X, Y)][k % 3]
+            n = rng.choice([3, 5])
+            c1, c2 = fml.gen_trace(rng, 2, n), fml.gen_trace(rng, 2, n)
+            for kind in ('discrete-offline', 'dense-offline'):
+                if kind == 'dense-offline' and f[0] == 'alw':
+                    continue
+                full = calls_for(kind, f, c1, list(range(n)), n)[0]
+                part = calls_for(kind, f, c2, list(range(n)), n)[0]
+                if kind == 'discrete-offline':
+                    part = ['evaluate', {k_: v_ for k_, v_ in part[1].items() if k_ != 'xb'}]
+                else:
+                    part = ['evaluate', [x for x in part[1] if x[0] != 'xb']]
+                first = full
+                if k % 2 == 1:
+                    # the earlier call itself failed half-way (a division by zero in the last operand)
+                    o = {'monitor': kind, 'vars': ['xa', 'xb', 'xc'], 'spec': 'out = (%s) and ((1 / xc) >= 0)' % fml.to_text(f), '_f': fml.to_sx(f)}
+                    zero = [0] * n
+                    if kind == 'discrete-offline':
+                        first = ['evaluate', dict(full[1], xc=zero)]
+                        part = ['evaluate', dict(part[1], xc=[1] * n)]
+                    else:
+                        first = ['evaluate', full[1] + [['xc', [[float(t), 0.0] for t in range(n)]]]]
+                        part = ['evaluate', part[1] + [['xc', [[float(t), 1.0] for t in range(n)]]]]
+                else:
+                    o = {'monitor': kind, 'vars': ['xa', 'xb'], 'spec': 'out = ' + fml.to_text(f), '_f': fml.to_sx(f)}
+                cases.append({'objects': [dict(o, calls=[first, part])], 'schedule': [[0, 0], [0, 1]], 'fresh_tail': 1})
         return cases
 
     def model_lines(self, c):
@@ -127,6 +157,9 @@ class C11(Check):
         out = [{'objects': c['objects'], 'schedule': c['schedule']}]
         for oi, o in enumerate(c['objects']):
             out.append({'objects': [self.renamed(o, oi)], 'schedule': [[0, ci] for ci in range(len(o['calls']))]})
+        if c.get('fresh_tail'):
+            o = c['objects'][0]
+            out.append({'objects': [dict(o, calls=o['calls'][-1:])], 'schedule': [[0, 0]]})
         return out
 
     @staticmethod
@@ -149,6 +182,13 @@ class C11(Check):
         for k, r in enumerate(inter['calls']):
             if r.get('status') == 'ok' and r.get('args_unchanged') is False:
                 return 'violation', dict(det, expected='arguments of evaluate()/update() unchanged', observed={'call': c['schedule'][k], 'args_unchanged': False})
+        if c.get('fresh_tail'):
+            strip = lambda r: {x: r.get(x) for x in ('status', 'value', 'kind')}
+            used, fresh = strip(inter['calls'][-1]), strip(ires[-1]['calls'][0])
+            if used != fresh:
+                return 'violation', dict(det, expected={'a fresh object on the last data set': fresh}, observed={'the object that evaluated another data set before': used},
+                                         calls=c['objects'][0]['calls'])
+            return 'ok', None
         # interleaved vs alone
         for oi, o in enumerate(c['objects']):
             alone = ires[1 + oi]['calls']
